@@ -127,27 +127,36 @@ Definition sort_items (d : list (pystr * sval)) : list (pystr * sval) := isort k
 Definition base_post (s : slots) (cls : pystr) (d : list (pystr * sval)) : list (pystr * sval) :=
   (if get_skip s then [] else [(type_key, JStr cls)]) ++ (if get_sort s then sort_items d else d).
 
-(* the stub the test dialect writes into out["origin"]["source"] (node.py:320-324) *)
-Definition test_stub : sval :=
-  JMap [(type_key, JStr (lit "Source")); (lit "source_uri", JStr []); (lit "source_type", JStr [])].
+(* the stub the test dialect writes into out["origin"]["source"] (node.py:316-331).
+   [fixed] = true: the code after the D20/D21 repair (keys in sorted order, no tag under SKIP_CLASS);
+   false: the literal before it (tag always, source_uri before source_type). *)
+Definition test_stub (fixed : bool) (s : slots) : sval :=
+  if fixed then
+    JMap ((if get_skip s then [] else [(type_key, JStr (lit "Source"))])
+          ++ [(lit "source_type", JStr []); (lit "source_uri", JStr [])])
+  else JMap [(type_key, JStr (lit "Source")); (lit "source_uri", JStr []); (lit "source_type", JStr [])].
 (* out.get("origin", {})["source"] = stub *)
-Definition stub_origin_source (out : list (pystr * sval)) : list (pystr * sval) :=
+Definition stub_origin_source (stub : sval) (out : list (pystr * sval)) : list (pystr * sval) :=
   match jget (lit "origin") out with
-  | Some (JMap o) => jset (lit "origin") (JMap (jset (lit "source") test_stub o)) out
+  | Some (JMap o) => jset (lit "origin") (JMap (jset (lit "source") stub o)) out
   | _ => out
   end.
 
-(* ASTNode.__post_serialize__ (node.py:307-326). [d16] = true: the code after the D16 repair (the
-   _children key is added before the base hook sorts); false: before it (added afterwards). *)
+(* which repairs the node hook contains. current = /repo. *)
+Record nvariant := { v_d16 : bool;     (* _children is added before the base hook sorts *)
+                     v_stub : bool }.  (* D20/D21: the test stub honours skip_class and sort_keys *)
+Definition current_nv : nvariant := {| v_d16 := true; v_stub := true |}.
+
+(* ASTNode.__post_serialize__ (node.py:307-333) *)
 Definition children_key : pystr := lit "_children".
-Definition node_post (d16 : bool) (s : slots) (cls : pystr) (child_fields : list pystr) (d : list (pystr * sval))
+Definition node_post (nv : nvariant) (s : slots) (cls : pystr) (child_fields : list pystr) (d : list (pystr * sval))
   : list (pystr * sval) :=
   let ch := (children_key, JList (map JStr child_fields)) in
   let out :=
     if is_explorer s then
-      if d16 then base_post s cls (d ++ [ch]) else base_post s cls d ++ [ch]
+      if v_d16 nv then base_post s cls (d ++ [ch]) else base_post s cls d ++ [ch]
     else base_post s cls d in
-  if is_test s then stub_origin_source out else out.
+  if is_test s then stub_origin_source (test_stub (v_stub nv) s) out else out.
 
 (* Source.__post_serialize__ (origin.py:80-83) *)
 Definition source_post (s : slots) (cls : pystr) (d : list (pystr * sval)) : list (pystr * sval) :=
